@@ -10,6 +10,7 @@ structure CS where
   nv : List (Nat × Bytes) := []
   rep : Report := {}
   line : Nat := 0
+  pcrVals : Bytes := []      -- the selected PCR values as last read (concatenated)
 
 def mism (c : CS) (msg : String) : CS :=
   { c with rep := { c.rep with mismatches := c.rep.mismatches ++ [s!"line {c.line}: {msg}"] } }
@@ -34,7 +35,7 @@ def parseRspSessions : Bytes → Nat → List (Bytes × Nat × Bytes)
 
 def cname : Check → String
   | .pass => "pass" | .failAuth => "auth" | .failPolicy => "policy" | .failPolicyCC => "policy-cc" | .unavailable => "unavailable"
-  | .authType => "auth-type" | .badAttributes => "attributes" | .noSession => "no-session"
+  | .authType => "auth-type" | .badAttributes => "attributes" | .pcrChanged => "pcr-changed" | .noSession => "no-session"
 def vname : Verdict → String
   | .ok => "ok" | .authMissing => "missing" | .authFail i w => s!"fail{i}-{cname w}" | .unknownEntity => "unknown-entity"
 
@@ -46,6 +47,7 @@ def rcsOf (i : Nat) : Check → List Nat
   | .unavailable => [0x12F]
   | .authType => [0x124]
   | .badAttributes => [0x082 + 0x800 + (i + 1) * 256]
+  | .pcrChanged => [0x128]
   | _ => []
 
 def rspHandleBytes (cc : Nat) : Nat :=
@@ -159,11 +161,12 @@ def stepAuth (c : CS) (l : Line) : CS :=
           | none => c
         else c
 
-def polOp (l : Line) : Option PolicyOp :=
+def polOp (l : Line) (vals : Bytes) (g : Nat) : Option PolicyOp :=
   let cc := (l.str "cc")
   if cc = "16b" then some .authValue else if cc = "18c" then some .password
   else if cc = "16c" then some (.commandCode (l.nat "code"))
   else if cc = "171" then some (.or (((l.str "digests").splitOn ",").map (fun h => (Line.hexBytes h).getD [])))
+  else if cc = "17f" then some (.pcr (l.bytes "sel") vals (l.bytes "given") g)
   else if cc = "180" then some .restart else none
 
 def step (c : CS) (l : Line) : CS :=
@@ -196,17 +199,20 @@ def step (c : CS) (l : Line) : CS :=
   | "sflush" => { c with st := { c.st with sess := c.st.sess.filter (·.handle ≠ l.nat "h") } }
   | "pol" =>
       let c := { c with rep := { c.rep with events := c.rep.events + 1 } }
-      match polOp l, c.st.session (l.nat "sh") with
+      match polOp l c.pcrVals c.st.pcrCounter, c.st.session (l.nat "sh") with
       | some op, some s =>
         let (s', mrc) := policyStep s op
         let rc := l.nat "rc"
         let c := branch c s!"pol/{l.str "cc"}/trial={s.trial}/model-rc={mrc}/rc={rc}"
         let c := if mrc = 0 ∧ rc ≠ 0 then mism c s!"SPEC[policy-step-refused] policy command {l.str "cc"} answered rc={rc}"
           else if mrc ≠ 0 ∧ rc = 0 then mism c s!"SPEC[policy-step-accepted] policy command {l.str "cc"} must be refused (model rc={mrc}) but succeeded"
-          else if mrc ≠ 0 ∧ rc % 64 + 128 * (rc / 128 % 2) ≠ mrc then mism c s!"policy command {l.str "cc"}: rc={rc}, model base code {mrc}"
+          else if mrc ≠ 0 ∧ rc % 64 + 128 * (rc / 128 % 2) ≠ mrc % 64 + 128 * (mrc / 128 % 2) then mism c s!"policy command {l.str "cc"}: rc={rc}, model base code {mrc}"
           else c
         { c with st := { c.st with sess := c.st.sess.map (fun x => if x.handle == s.handle then s' else x) } }
       | _, _ => mism c "policy command on an unknown session / unknown command"
+  | "pcrv" =>
+      if l.nat "rc" ≠ 0 then mism c s!"PCR_Read of the policy's selection failed rc={l.nat "rc"}" else
+      { c with pcrVals := l.bytes "vals", st := { c.st with pcrCounter := l.nat "ctr" } }
   | "pgd" =>
       let c := { c with rep := { c.rep with events := c.rep.events + 1 } }
       match c.st.session (l.nat "sh") with
